@@ -89,6 +89,8 @@ def check_vector(v):
         fa = IndexedFasta(path)
         res["lengths"] = outcome(lambda: {k: int(x) for k, x in fa.get_contig_lengths().items()})
         res["whole"] = [outcome(lambda nm=nm: fa[nm].to_string()) for nm in names]
+        # the same contigs fetched one after the other and looked at only afterwards (a result must not be a window on a reused buffer)
+        res["held"] = outcome(lambda: [x.to_string() for x in [fa[nm] for nm in names]])
         ivs = [(i, a, b) for i, r in enumerate(recs) for a in range(r["L"]) for b in range(a + 1, r["L"] + 1)]
         chrom = [names[i] for i, _, _ in ivs]
         st = np.array([a for _, a, _ in ivs])
@@ -115,6 +117,9 @@ def check_vector(v):
             n += 1
             if ow != ("ok", sq):
                 rep("fetching a whole contig does not return its sequence", "whole", sq, ow, index=kind)
+        n += 1
+        if res["held"] != ("ok", seqs):
+            rep("whole contigs fetched one after the other and compared afterwards are not the sequences", "whole-held", seqs, res["held"], index=kind)
         want = [seqs[i][a:b] for i, a, b in res["ivs"]]
         for pathname in ("slow", "fast"):
             n += len(want)
@@ -143,24 +148,89 @@ def check_vector(v):
     return {"n": n, "nt": [key] if multiline else [], "bad": bad}
 
 
+def check_big(v):
+    """A FASTA of several reader chunks: created index against the arithmetic index of the specification, and fetches at the record borders."""
+    import bionumpy as bnp
+    from bionumpy.io.indexed_fasta import IndexedFasta, create_index
+    from bionumpy.datatypes import Interval
+    recs = v["recs"]
+    d = os.path.join(v["_dir"], "c17_big_%d" % os.getpid())
+    os.makedirs(d, exist_ok=True)
+    path = os.path.join(d, "big.fa")
+    names = []
+
+    def base(i, p):
+        return LETTERS[(3 * i + p) % len(LETTERS)]
+    with open(path, "w") as f:
+        for i, r in enumerate(recs):
+            name = "r%d" % (i + 1)
+            header = name if r["hdr"] == 2 else name + " d" + "x" * (r["hdr"] - 4)
+            names.append(name)
+            unit = "".join(base(i, p) for p in range(len(LETTERS)))
+            seq = (unit * (r["L"] // len(LETTERS) + 1))[:r["L"]]
+            body = "\n".join(seq[p:p + r["W"]] for p in range(0, r["L"], r["W"]))
+            f.write(">" + header + "\n" + body + "\n")
+    bad, n = [], 0
+    vec = {k: v[k] for k in v if not k.startswith("_")}
+    if os.path.getsize(path) != v["flen"]:
+        raise core.MachineryFailure("big FASTA has %d bytes, the specification says %d" % (os.path.getsize(path), v["flen"]))
+    want = [[names[i], row["length"], row["offset"], row["lenc"], row["lenb"]] for i, row in enumerate(v["index"])]
+
+    def built():
+        idx = create_index(path)
+        return [[c.split()[0], int(l), int(s), int(cp), int(ll)] for c, l, s, cp, ll in
+                zip(idx.chromosome.tolist(), idx.length.tolist(), idx.start.tolist(), idx.characters_per_line.tolist(), idx.line_length.tolist())]
+    o = outcome(built)
+    n += 1
+    if o != ("ok", want):
+        bad.append({"what": "created index of a multi-chunk FASTA differs from the file layout", "tags": {"op": "create_index", "big": True, "nrec": len(recs), "finalnl": True},
+                    "vector": vec, "expected": want, "observed": o})
+    else:
+        def fetches():
+            from bionumpy.io.indexed_files import IndexBuffer
+            bnp.open(path + ".fai", "w", buffer_type=IndexBuffer).write(create_index(path))
+            fa = IndexedFasta(path)
+            ivs = []
+            for i, r in enumerate(recs):
+                L = r["L"]
+                for a, b in ((0, min(L, 7)), (max(0, L - 9), L), (L // 2, min(L, L // 2 + 130))):
+                    ivs.append((i, a, b))
+            got = fa.get_interval_sequences(Interval([names[i] for i, _, _ in ivs], np.array([a for _, a, _ in ivs]), np.array([b for _, _, b in ivs]))).tolist()
+            exp = ["".join(base(i, p) for p in range(a, b)) for i, a, b in ivs]
+            lens = {k: int(x) for k, x in fa.get_contig_lengths().items()}
+            return got == exp, lens == {nm: r["L"] for nm, r in zip(names, recs)}, [g[:20] for g in got][:6]
+        o = outcome(fetches)
+        n += 1
+        if o[0] != "ok" or not (o[1][0] and o[1][1]):
+            bad.append({"what": "fetching from a multi-chunk FASTA differs from the file", "tags": {"op": "fetch-big", "big": True, "nrec": len(recs), "finalnl": True},
+                        "vector": vec, "expected": "substrings at the record borders and the sequence lengths", "observed": str(o)[:300]})
+    import shutil
+    shutil.rmtree(d, ignore_errors=True)
+    return {"n": n, "nt": [json.dumps(["big", recs])], "bad": bad}
+
+
 def run(ctx):
     quick = ctx.tier == "quick"
     vectors = []
     for fn in (True, False):
         consts = {"MaxRecs": 2, "MaxL": 4 if quick else 6, "MaxW": 3 if quick else 4, "FinalNL": fn}
-        invs = ["FetchCorrect" if fn else "FetchCorrectUnlessAtRaggedEnd", "Emit"]
+        invs = ["FetchCorrect" if fn else "FetchCorrectUnlessAtRaggedEnd", "OffsetsAgree", "Emit"]
         res = ctx.tlc("MC_C17", tag="MC_C17_%s" % ("nl" if fn else "nonl"), spec="Spec", constants=consts, invariants=invs, coverage=True)
         ctx.require_actions(res, "MC_C17", ["FetchAny", "WholeAny"])
         vectors += res.vectors
     if not quick:
         res = ctx.tlc("MC_C17", tag="MC_C17_3recs", spec="Spec", constants={"MaxRecs": 3, "MaxL": 3, "MaxW": 2, "FinalNL": True},
-                      invariants=["FetchCorrect", "Emit"])
+                      invariants=["FetchCorrect", "OffsetsAgree", "Emit"])
         vectors += res.vectors
     for i, v in enumerate(vectors):
         v["_id"] = i
         v["_dir"] = ctx.work
     ctx.sample({k: vectors[7][k] for k in ("recs", "finalnl", "index")})
     ctx.absorb(core.pmap(check_vector, vectors, chunk=10))
+    # a file of several reader chunks (the index is built chunk by chunk): index by the arithmetic definition, TLC-checked above
+    big = ctx.tlc("MC_C17big", tag="MC_C17big", spec="BigSpec", constants={"MaxRecs": 1, "MaxL": 1, "MaxW": 1, "FinalNL": True}, invariants=["EmitBig"])
+    bv = dict(big.vectors[0], _dir=ctx.work)
+    ctx.absorb([check_big(bv)])
     ctx.exhaustive = True
     return ctx.finish(RULE, assumptions=[
         "bases-per-line of a record that fits on one line is not determined by the file and is not compared",
